@@ -10,7 +10,7 @@
    (translate/call_bodies.py) and interpreted by C03/Model.v. *)
 From Coq Require Import ZArith QArith Reals List Bool Arith Lia Lra.
 From Verif Require Import Base.Num Base.Vec C03.Syntax Gen.C03Bodies C03.Poison C03.Model C03.Heap
-  C03.Protocol C03.Classes C03.Proofs C03.Corr C03.Refuted.
+  C03.Protocol C03.Classes C03.Proofs C03.PModel C03.PProofs C03.Corr C03.Refuted.
 Import ListNotations.
 
 (* ------------------------------------------------------------------ *)
@@ -311,3 +311,75 @@ Theorem leaf_contract_necessary_refuted :
   (let o := Op cls_OperatorLeftScalarMult sp3 (RSp sp3) [Some 2%Q] [] [] [bad_leaf QWritesX] in
    data_after (call junkQ o (VElem 0%nat) None [(sp3, q3 1 2 3)]) 0 = Some (q3 0 0 0)).
 Proof. split; [exact accumulating_leaf_breaks_inplace | exact writing_leaf_breaks_input]. Qed.
+
+(* ------------------------------------------------------------------ *)
+(* PRODUCT-SPACE OPERATORS (odl/operator/pspace_ops.py; model C03/PModel.v: a product element
+   is the list of its parts; ProductSpaceOperator._call is the loop over the COO entries;
+   Broadcast / Reduction / DiagonalOperator are ProductSpaceOperators with a fixed pattern).
+   [se] pairs every entry with the function its operator tree denotes ([ent_ok]: the
+   entry's operator is a tree of call_protocol_all_trees between the right components).
+   Proved by induction over the entry list (loop invariants), for ANY number of entries,
+   rows and columns: *)
+(* T1  op(x): new parts holding, row by row, zeros followed by += of every entry of the
+   row in COO order; nothing that existed before is modified. *)
+Theorem product_space_operator_out_of_place :
+  forall (junk : nat -> nat -> option R) ro doms rans xs xd (se : list sent) (s : @store (option R)),
+  Forall (ent_ok ro doms rans) se -> args_ok ro doms xs xd s ->
+  exists s', pso_oop junk (map fst se) rans xs s = Ok (seq (length s) (length rans)) s' /\
+    (forall i ri, nth_error rans i = Some ri ->
+        rd s' (length s + i) = Some (ri, cl (oop_rows rans xd se i))) /\
+    ext s s' [] /\ wf_store s'.
+Proof. exact pso_oop_ok. Qed.
+Print Assumptions product_space_operator_out_of_place.
+(* T1  op(x, out=y): the parts of y (pairwise distinct objects, distinct from the parts
+   of x and from operator-owned elements, ARBITRARY contents) hold, row by row, the first
+   entry written and the later ones added -- or zeros for a row without entry, PROVIDED
+   set_zero is safe on that part ([zero_safe]: repaired small-size branch, or >= 100
+   entries, or NaN-free old contents); only parts of y are modified. *)
+Theorem product_space_operator_in_place :
+  forall (junk : nat -> nat -> option R) ro doms rans xs outs xd (se : list sent) (s : @store (option R)),
+  Forall (ent_ok ro doms rans) se -> outs_static ro rans xs outs -> args_ok ro doms xs xd s ->
+  (forall i o ri, nth_error outs i = Some o -> nth_error rans i = Some ri -> exists d, rd s o = Some (ri, d)) ->
+  (forall o, In o outs -> zero_safe s o) ->
+  exists s', pso_ip junk (map fst se) xs outs s = Ok tt s' /\
+    (forall i o ri, nth_error outs i = Some o -> nth_error rans i = Some ri ->
+        rd s' o = Some (ri, cl (ip_rows rans xd se i))) /\
+    ext s s' outs /\ wf_store s'.
+Proof. exact pso_ip_ok. Qed.
+Print Assumptions product_space_operator_in_place.
+(* T1  and the two row formulas are the same lists of reals *)
+Theorem product_space_operator_modes_agree :
+  forall rans xd (se : list sent),
+  (forall p ri, In p se -> nth_error rans (en_row (fst p)) = Some ri ->
+                length (snd p (xd (en_col (fst p)))) = fst ri) ->
+  forall k, (k < length rans)%nat -> ip_rows rans xd se k = oop_rows rans xd se k.
+Proof. exact rows_agree. Qed.
+(* T1  ComponentProjectionAdjoint(space, i)(x, out=y) under the same proviso *)
+Theorem component_projection_adjoint_partial :
+  forall i x (outs : list nat) (sps : list space) (s : @store (option R)) dx spi oi,
+  wf_store s -> NoDup outs -> length outs = length sps -> ~ In x outs ->
+  rd s x = Some (spi, cl dx) -> nth_error outs i = Some oi -> nth_error sps i = Some spi ->
+  (forall k o sp, nth_error outs k = Some o -> nth_error sps k = Some sp ->
+      (exists d, rd s o = Some (sp, d)) /\ zero_safe s o) ->
+  exists s', cpadj_ip i x outs s = Ok tt s' /\ wf_store s' /\ ext s s' outs /\
+    rd s' oi = Some (spi, cl dx) /\
+    (forall k o sp, k <> i -> nth_error outs k = Some o -> nth_error sps k = Some sp ->
+        rd s' o = Some (sp, cl (zvec sp))).
+Proof. exact cpadj_ip_ok. Qed.
+(* REFUTED without the proviso (finding set-zero-reads-out, two more sites): *)
+Theorem component_projection_adjoint_refuted :
+  match small_guarded with SvUnguarded => False | _ => True end \/
+  (match cpadj_ip 0 0%nat [1%nat; 2%nat] [(sp3, q3 1 2 3); (sp3, nan3); (sp3, nan3)] with
+   | Ok _ s => parts_after (Ok [1%nat; 2%nat] s) = Some [q3 1 2 3; nan3]
+   | Err _ _ => False
+   end
+   /\ parts_after (cpadj_oop 0 [sp3; sp3] 0%nat [(sp3, q3 1 2 3)]) = Some [q3 1 2 3; q3 0 0 0]).
+Proof. exact cpadj_old_out_survives. Qed.
+Theorem product_space_operator_empty_row_refuted :
+  let ents := [{| en_row := 0; en_col := 0; en_op := scal3 2 |}] in
+  match small_guarded with SvUnguarded => False | _ => True end \/
+  (parts_after (pso_call junkQ ents [sp3; sp3] [sp3; sp3] [0%nat; 1%nat] (Some [2%nat; 3%nat])
+                  [(sp3, q3 1 2 3); (sp3, q3 4 5 6); (sp3, nan3); (sp3, nan3)]) = Some [q3 2 4 6; nan3]
+   /\ parts_after (pso_call junkQ ents [sp3; sp3] [sp3; sp3] [0%nat; 1%nat] None
+                  [(sp3, q3 1 2 3); (sp3, q3 4 5 6)]) = Some [q3 2 4 6; q3 0 0 0]).
+Proof. exact pso_zero_row_old_out_survives. Qed.
